@@ -10,6 +10,7 @@ class Bridge:
         self.interp = interp
         self.pkg = pkg
         self._cls = {}
+        self.enum_as_int = False
 
     # ---- classes
     def top_class(self, name):
@@ -63,6 +64,8 @@ class Bridge:
             if x is None:
                 return None
             if t.kind == "enum":
+                if self.enum_as_int and not isinstance(x, bool):
+                    return int(x)  # an equal integer that is not the member object itself
                 return self.top_class(t.name)(x)
             if t.kind == "struct":
                 return self.build(x, array_form, handles)
